@@ -71,16 +71,35 @@ func init() {
 		if origName == "" {
 			failShape("var OriginalTarget not found")
 		}
-		m = matchShape("BuildLabel.String", bodyText(fsL, findFunc(fl, "BuildLabel", "String")), `{
-			zero := BuildLabel{}
-			if label == zero { return "" } else if label.IsOriginalTarget() { return §S }
-			s := "//" + label.PackageName
-			if label.Subrepo != "" { s = "///" + label.Subrepo + s }
-			if label.IsAllSubpackages() {
-				if label.PackageName == "" { return s + "..." }
-				return s + "/..." }
-			return s + ":" + label.Name }`)
+		// String(): the statements are pinned one by one; the ORDER of the subrepo prefix and the `...` returns is translated
+		// (Gen.print_subrepo_prefix_first), so the model prints what the source prints (seeded r2-m3)
+		strFn := findFunc(fl, "BuildLabel", "String")
+		if len(strFn.Body.List) != 6 {
+			failShape("BuildLabel.String: expected 6 statements, found %d", len(strFn.Body.List))
+		}
+		if got := c20NodeText(fsL, strFn.Body.List[0]); got != "zero := BuildLabel{}" {
+			failShape("BuildLabel.String: first statement is %s", got)
+		}
+		m = matchShape("BuildLabel.String (special labels)", c20NodeText(fsL, strFn.Body.List[1]),
+			`if label == zero { return "" } else if label.IsOriginalTarget() { return §S }`)
 		origString := m[0]
+		if got := c20NodeText(fsL, strFn.Body.List[2]); got != `s := "//" + label.PackageName` {
+			failShape("BuildLabel.String: third statement is %s", got)
+		}
+		const strSub = `if label.Subrepo != "" { s = "///" + label.Subrepo + s }`
+		const strDots = `if label.IsAllSubpackages() { if label.PackageName == "" { return s + "..." } return s + "/..." }`
+		printSubFirst := ""
+		switch a, b := c20NodeText(fsL, strFn.Body.List[3]), c20NodeText(fsL, strFn.Body.List[4]); {
+		case a == strSub && b == strDots:
+			printSubFirst = "true"
+		case a == strDots && b == strSub:
+			printSubFirst = "false"
+		default:
+			failShape("BuildLabel.String: statements 4 and 5 are not the subrepo prefix and the `...` returns (in either order):\n  %s\n  %s", a, b)
+		}
+		if got := c20NodeText(fsL, strFn.Body.List[5]); got != `return s + ":" + label.Name` {
+			failShape("BuildLabel.String: last statement is %s", got)
+		}
 		matchShape("BuildLabel.IsOriginalTarget", bodyText(fsL, findFunc(fl, "BuildLabel", "IsOriginalTarget")), `{ return label == OriginalTarget }`)
 		m = matchShape("BuildLabel.IsAllSubpackages", bodyText(fsL, findFunc(fl, "BuildLabel", "IsAllSubpackages")), `{ return label.Name == §S }`)
 		same("the all-subpackages name", allSub, m[0], "...")
@@ -159,10 +178,23 @@ func init() {
 		}
 
 		// --- isExperimental, CanSee, experimentalLabels ----------------------------------------------------
-		matchShape("BuildLabel.isExperimental", bodyText(fsL, findFunc(fl, "BuildLabel", "isExperimental")), `{
-			if label.Subrepo != "" { return false }
-			for _, exp := range state.experimentalLabels { if exp.Includes(label) { return true } }
-			return false }`)
+		// isExperimental: the subrepo guard is translated (present or not: Gen.is_experimental_subrepo_guard), the loop pinned
+		// (seeded r2-m2)
+		ie := findFunc(fl, "BuildLabel", "isExperimental")
+		expGuard := "false"
+		ieRest := ie.Body.List
+		if len(ieRest) == 3 {
+			if got := c20NodeText(fsL, ieRest[0]); got != `if label.Subrepo != "" { return false }` {
+				failShape("isExperimental: first of 3 statements is %s", got)
+			}
+			expGuard, ieRest = "true", ieRest[1:]
+		}
+		if len(ieRest) != 2 {
+			failShape("isExperimental: expected [subrepo guard,] loop, return; found %d statements", len(ie.Body.List))
+		}
+		if got := c20NodeText(fsL, ieRest[0]) + " " + c20NodeText(fsL, ieRest[1]); got != `for _, exp := range state.experimentalLabels { if exp.Includes(label) { return true } } return false` {
+			failShape("isExperimental: loop and return are %s", got)
+		}
 		matchShape("BuildLabel.CanSee", bodyText(fsL, findFunc(fl, "BuildLabel", "CanSee")), `{
 			if label.PackageName == dep.Label.PackageName { return true } else if dep.Label.isExperimental(state) && !label.isExperimental(state) {
 				log.Error("Target %s cannot depend on experimental target %s", label, dep.Label)
@@ -190,6 +222,75 @@ func init() {
 		matchShape("BuildState.ShouldInclude", bodyText(fsS, findFunc(fst, "BuildState", "ShouldInclude")), `{
 			for _, e := range state.ExcludeTargets { if e.Includes(target.Label) { return false } }
 			return target.ShouldInclude(state.Include, state.Exclude) }`)
+
+		// --- SetIncludeAndExclude: translate how state.Exclude is initialised, pin the loop -----------------------
+		// (follow-up, seeded r2-m1)  The model (Model/C20.v sie_with) gives the caller's exclude slice a backing array
+		// and state.Exclude either a fresh array or a view of the caller's; which one is decided by the
+		// right-hand side of `state.Exclude = ...`, translated here into Gen.sie_exclude_init.
+		sie := findFunc(fst, "BuildState", "SetIncludeAndExclude")
+		if sie.Recv.List[0].Names[0].Name != "state" || len(sie.Type.Params.List) != 1 || len(sie.Type.Params.List[0].Names) != 2 ||
+			sie.Type.Params.List[0].Names[0].Name != "include" || sie.Type.Params.List[0].Names[1].Name != "exclude" ||
+			types.ExprString(sie.Type.Params.List[0].Type) != "[]string" {
+			failShape("SetIncludeAndExclude: expected (state *BuildState) SetIncludeAndExclude(include, exclude []string)")
+		}
+		if len(sie.Body.List) != 3 {
+			failShape("SetIncludeAndExclude: expected 3 statements, found %d", len(sie.Body.List))
+		}
+		if got := c20NodeText(fsS, sie.Body.List[0]); got != "state.Include = include" {
+			failShape("SetIncludeAndExclude: first statement is %s", got)
+		}
+		sieInit := c20TranslateSliceInit("SetIncludeAndExclude", sie.Body.List[1], "state.Exclude", "exclude")
+		matchShape("SetIncludeAndExclude (loop)", c20NodeText(fsS, sie.Body.List[2]), `
+for _, e := range exclude {
+if LooksLikeABuildLabel(e) {
+if label, err := parseMaybeRelativeBuildLabel(e, ""); err != nil { log.Fatalf("%s", err) } else {
+state.ExcludeTargets = append(state.ExcludeTargets, label) } } else {
+state.Exclude = append(state.Exclude, e) } }`)
+		lll := findFunc(fl, "", "LooksLikeABuildLabel")
+		if len(lll.Type.Params.List) != 1 || len(lll.Type.Params.List[0].Names) != 1 || lll.Type.Params.List[0].Names[0].Name != "str" || len(lll.Body.List) != 1 {
+			failShape("LooksLikeABuildLabel: expected LooksLikeABuildLabel(str string) with a single return")
+		}
+		lllRet, ok := lll.Body.List[0].(*ast.ReturnStmt)
+		if !ok || len(lllRet.Results) != 1 {
+			failShape("LooksLikeABuildLabel: body is not a single-value return")
+		}
+		looksCond := c20TranslateCond("LooksLikeABuildLabel", lllRet.Results[0], map[string]string{"str": "x"})
+		matchShape("parseMaybeRelativeBuildLabel", bodyText(fsL, findFunc(fl, "", "parseMaybeRelativeBuildLabel")), `{
+startsWithColon := strings.HasPrefix(target, ":")
+if !startsWithColon {
+if !strings.HasPrefix(target, "//") && strings.HasPrefix(target, "/") { target = "/" + target }
+if label, err := TryParseBuildLabel(target, "", ""); err == nil || strings.HasPrefix(target, "//") { return label, err } }
+if subdir == "" {
+MustFindRepoRoot()
+subdir = InitialPackagePath }
+if startsWithColon { return TryParseBuildLabel(target, subdir, "") }
+return TryParseBuildLabel("//"+filepath.Join(subdir, target), "", "") }`)
+		// the callers the session model (Model/C20.v op) is written from: src/please.go keeps ONE option slice for the whole
+		// process, appends plain excludes to it before every build, and hands it to a fresh state each time
+		fsP, fp := parseFile("src/please.go")
+		nAppend, nSet := 0, 0
+		ast.Inspect(fp, func(n ast.Node) bool {
+			switch x := n.(type) {
+			case *ast.AssignStmt:
+				if len(x.Lhs) == 1 && types.ExprString(x.Lhs[0]) == "opts.BuildFlags.Exclude" {
+					nAppend++
+					if got := c20NodeText(fsP, x); got != `opts.BuildFlags.Exclude = append(opts.BuildFlags.Exclude, "manual", "manual:"+core.OsArch)` {
+						failShape("please.go: unexpected assignment %s", got)
+					}
+				}
+			case *ast.CallExpr:
+				if sel, ok := x.Fun.(*ast.SelectorExpr); ok && sel.Sel.Name == "SetIncludeAndExclude" {
+					nSet++
+					if got := types.ExprString(x); got != "state.SetIncludeAndExclude(opts.BuildFlags.Include, opts.BuildFlags.Exclude)" {
+						failShape("please.go: unexpected call %s", got)
+					}
+				}
+			}
+			return true
+		})
+		if nAppend != 2 || nSet != 1 {
+			failShape("please.go: expected 2 appends to opts.BuildFlags.Exclude (query changes, runBuild) and 1 SetIncludeAndExclude call, found %d and %d", nAppend, nSet)
+		}
 
 		// --- validateSandbox: pin the frame, translate the experimental-dir condition ---------------------
 		vs := findFunc(fa, "", "validateSandbox")
@@ -231,7 +332,20 @@ func init() {
 			"(* Includes, the outer `if <this> {`; tp = that.PackageName, lall = label.IsAllSubpackages() *)\n" +
 			"Definition includes_guard_cond (lp tp : str) (lall : bool) : bool :=\n  " + includesCond + ".\n" +
 			"(* validateSandbox, `for _, dir := range ExperimentalDir { if <this> { return nil } }`; pkg = target.Label.PackageName *)\n" +
-			"Definition sandbox_expdir_cond (pkg dir : str) : bool :=\n  " + expCond + ".\n"
+			"Definition sandbox_expdir_cond (pkg dir : str) : bool :=\n  " + expCond + ".\n" +
+			"(* strings.ContainsRune(x, c) for an ASCII c; strings.Contains(x, sub) *)\n" +
+			"Definition contains_byte (c : N) (x : str) : bool := existsb (N.eqb c) x.\n" +
+			"Fixpoint contains_sub (sub x : str) : bool :=\n  has_prefix sub x || match x with [] => false | _ :: r => contains_sub sub r end.\n" +
+			"(* LooksLikeABuildLabel(str): `return <this>`; x = str *)\n" +
+			"Definition looks_like_label_cond (x : str) : bool :=\n  " + looksCond + ".\n" +
+			"(* isExperimental: does it start with `if label.Subrepo != \"\" { return false }`? *)\n" +
+			"Definition is_experimental_subrepo_guard : bool := " + expGuard + ".\n" +
+			"(* String(): does `if label.Subrepo != \"\" { s = \"///\" + label.Subrepo + s }` stand before the `...` returns? *)\n" +
+			"Definition print_subrepo_prefix_first : bool := " + printSubFirst + ".\n" +
+			"(* SetIncludeAndExclude, `state.Exclude = <this>`: nil, or the empty prefix exclude[:0] of the caller's slice\n" +
+			"   (appends then write into the caller's backing array) *)\n" +
+			"Inductive slice_init := InitNil | InitArgEmptyPrefix.\n" +
+			"Definition sie_exclude_init : slice_init := " + sieInit + ".\n"
 	}
 }
 
@@ -351,9 +465,46 @@ func c20TranslateCond(what string, e ast.Expr, vars map[string]string) string {
 			if types.ExprString(x.Fun) == "strings.HasPrefix" && len(x.Args) == 2 {
 				return "(has_prefix " + str(x.Args[1]) + " " + str(x.Args[0]) + ")"
 			}
+			if types.ExprString(x.Fun) == "strings.Contains" && len(x.Args) == 2 {
+				return "(contains_sub " + str(x.Args[1]) + " " + str(x.Args[0]) + ")"
+			}
+			if types.ExprString(x.Fun) == "strings.ContainsRune" && len(x.Args) == 2 {
+				if bl, ok := x.Args[1].(*ast.BasicLit); ok && bl.Kind == token.CHAR {
+					if v := unquote(bl); len(v) == 1 && v[0] >= 0x20 && v[0] <= 0x7e {
+						return "(contains_byte " + itoa(int(v[0])) + " " + str(x.Args[0]) + ")"
+					}
+				}
+				failShape("%s: strings.ContainsRune with a second argument that is not a printable ASCII character literal", what)
+			}
 		}
 		failShape("%s: cannot translate boolean expression %s", what, types.ExprString(e))
 		return ""
 	}
 	return b(e)
+}
+
+// c20TranslateSliceInit translates `<lhs> = <rhs>` where rhs decides which backing array the slice starts on:
+// `nil` (a fresh array on the first append) or `<arg>[:0]` / `<arg>[0:0]` (the empty prefix of the caller's slice:
+// appends write into the caller's array).  Everything else fails closed.
+func c20TranslateSliceInit(what string, st ast.Stmt, lhs, arg string) string {
+	as, ok := st.(*ast.AssignStmt)
+	if !ok || as.Tok != token.ASSIGN || len(as.Lhs) != 1 || len(as.Rhs) != 1 || types.ExprString(as.Lhs[0]) != lhs {
+		failShape("%s: expected the plain assignment `%s = ...`", what, lhs)
+	}
+	switch x := as.Rhs[0].(type) {
+	case *ast.Ident:
+		if x.Name == "nil" {
+			return "InitNil"
+		}
+	case *ast.SliceExpr:
+		zero := func(e ast.Expr) bool {
+			bl, ok := e.(*ast.BasicLit)
+			return ok && bl.Kind == token.INT && bl.Value == "0"
+		}
+		if id, ok := x.X.(*ast.Ident); ok && id.Name == arg && !x.Slice3 && (x.Low == nil || zero(x.Low)) && x.High != nil && zero(x.High) {
+			return "InitArgEmptyPrefix"
+		}
+	}
+	failShape("%s: `%s = %s` is neither nil nor the empty prefix %s[:0]; the slice model of Model/C20.v does not cover it", what, lhs, types.ExprString(as.Rhs[0]), arg)
+	return ""
 }
